@@ -264,7 +264,7 @@ def laws_part(run, np, ode):
         a = ode.SolveUnc(s["m"], s["b"], s["k"], s["h"], rf=rf).tsolve(F, static_ic=bool(trial % 2))
         b = ode.SolveCDF(s["m"], s["b"], s["k"], s["h"], rf=rf).tsolve(F, static_ic=bool(trial % 2))
         run.case(("cdf=unc", trial), part="laws")
-        if a.d.tobytes() != b.d.tobytes() or a.v.tobytes() != b.v.tobytes() or a.a.tobytes() != b.a.tobytes():
+        if any(not np.allclose(x_, y_, rtol=0, atol=1e-12 * max(np.abs(x_).max(), 1e-300)) for x_, y_ in ((a.d, b.d), (a.v, b.v), (a.a, b.a))):
             run.violation("with diagonal damping SolveCDF is not identical to SolveUnc", {"trial": trial}, {"solver": "SolveCDF"})
     # convergence ladder against the exact solver
     for trial in range(6 if run.tier == "quick" else 40):
@@ -324,7 +324,7 @@ def body(run: Run, replay):
     from pyyeti import ode
     run.rule = ("Newmark: {diag, full} x mass {None, vector, matrix, singular} x rf x ic x 0-2 nonlinear terms x nt in {2,3,4,7} against the "
                 "rule terms of specs/Newmark.tla; CDF: implicit defining relation per step with the exact diagonal step terms of "
-                "specs/OdeModel.tla; laws: CDF = Unc for diagonal damping (bit-for-bit), error ladder h..h/32, boundedness. "
+                "specs/OdeModel.tla; laws: CDF = Unc for diagonal damping (1e-12 of the scale), error ladder h..h/32, boundedness. "
                 "distinct non-trivial = lattice points / trials")
     run.assumptions = ["convergence is observed over 5 halvings (not a limit); stability is observed for w*h up to 5e3 over 300 steps",
                        "the nonlinear callables are evaluated on the expected history"]
